@@ -8,7 +8,7 @@ and therefore independent of the calling sequence.
 import ast
 
 from ..report import rule
-from .. import norm, cfg as cfgmod, guards, matchers as M
+from .. import pm, norm, cfg as cfgmod, guards, matchers as M
 from ..traces import Tracer, fmt, last_index
 from ..typestate import TypeState
 from ..model import AnalysisError
@@ -297,7 +297,7 @@ def c01_r3(ctx):
     al = norm.aliases(f.node)
 
     def dcanon(e):
-        return norm.canon(norm.substitute(e, {k: v for k, v in defs.items() if k == "deleted"}), al)
+        return norm.canon(norm.inline_defs(e, f.node), al)
 
     fm_calls = [c for c in norm.calls_in(f.node) if norm.call_name(c) in ("FilterMatcher", "ExcludeMatcher")]
     good_fm = []
@@ -402,8 +402,9 @@ def c01_r3(ctx):
     if len(inv) == 1:
         init = prog.method("matching.wrappers.InverseMatcher", "__init__")
         m, probs = bind_args(inv[0], init)
-        ok = bool(m) and not probs and norm.canon(m.get("missing")) == "reader.is_deleted" and \
-            norm.canon(m.get("limit")) == "reader.doc_count_all()"
+        A = pm.Alpha(nt)
+        ok = bool(m) and not probs and A.eq(m.get("missing"), "reader.is_deleted") and \
+            A.eq(m.get("limit"), "reader.doc_count_all()")
     ctx.ob(nt, ok, "Not builds InverseMatcher(child, reader.doc_count_all(), missing=reader.is_deleted)")
     # counts
     sg = prog.method("codec.base.Segment", "doc_count", inherited=False)
@@ -502,19 +503,31 @@ def c01_r4(ctx):
                             bad.append(norm.canon(call))
             # global_docnum definitions
             gdefs = []
+            gdef_nodes = []
             for st in ast.walk(g.node):
                 if isinstance(st, ast.Assign) and any(isinstance(t_, ast.Name) and "global" in t_.id for t_ in st.targets):
                     gdefs.append(norm.canon(st.value))
-            okdefs = all(any(v == norm.canon(norm.parse_expr(tmpl % r)) for r in raw
-                             for tmpl in ("self.offset + %s", "self.child.offset + %s", "child.offset + %s", "offset + %s"))
-                         for v in gdefs)
+                    gdef_nodes.append(st.value)
+            gal = norm.aliases(g.node)
+
+            def is_glob(v):
+                # <something>.offset + <raw docnum>  (aliases of self / self.child resolved)
+                if not (isinstance(v, ast.BinOp) and isinstance(v.op, ast.Add)):
+                    return False
+                for a_, b_ in ((v.left, v.right), (v.right, v.left)):
+                    if isinstance(a_, ast.Name) and a_.id in raw:
+                        t = norm.canon(b_, gal)
+                        if t in ("self.offset", "self.child.offset"):
+                            return True
+                return False
+            okdefs = all(is_glob(v) for v in gdef_nodes)
             # sinks that receive offset+raw inline are fine: re-check bad entries
             realbad = []
             for call in norm.calls_in(g.node):
                 if norm.call_name(call) not in SINKS:
                     continue
                 for a in call.args:
-                    stripped = _strip_offset_sums(a, raw)
+                    stripped = _strip_offset_sums(a, raw, gal)
                     if any(isinstance(nd, ast.Name) and nd.id in raw for nd in ast.walk(stripped)):
                         realbad.append(norm.canon(call))
             ctx.ob(g, not realbad and okdefs, "records only offset + sub_docnum, never the raw sub-searcher document number",
@@ -538,7 +551,7 @@ def c01_r4(ctx):
     ctx.ob(run, ok, "run() hands each leaf searcher to set_subsearcher together with its own offset")
 
 
-def _strip_offset_sums(expr, raw):
+def _strip_offset_sums(expr, raw, al_=None):
     """Replace every `<offset> + <raw>` by a constant so remaining raw names are unglobalised uses."""
     class T(ast.NodeTransformer):
         def visit_BinOp(self, node):
@@ -546,7 +559,7 @@ def _strip_offset_sums(expr, raw):
             if isinstance(node.op, ast.Add):
                 l, r = node.left, node.right
                 for a, b in ((l, r), (r, l)):
-                    if isinstance(a, ast.Name) and a.id in raw and "offset" in norm.canon(b):
+                    if isinstance(a, ast.Name) and a.id in raw and norm.canon(b, al_).endswith("offset"):
                         return ast.Constant(value=0)
             return node
     import copy
